@@ -89,6 +89,11 @@ func (s *StakingView) GetValidator(ctx context.Context, addr sdk.ValAddress) (st
 }
 
 func (s *StakingView) GetDelegation(ctx context.Context, del sdk.AccAddress, val sdk.ValAddress) (stakingtypes.Delegation, error) {
+	for _, d := range s.Delegated {
+		if d.Delegator == del.String() {
+			return stakingtypes.Delegation{DelegatorAddress: d.Delegator, ValidatorAddress: val.String(), Shares: sdkmath.LegacyNewDecFromInt(d.Amount)}, nil
+		}
+	}
 	return stakingtypes.Delegation{}, stakingtypes.ErrNoDelegation
 }
 
